@@ -201,7 +201,8 @@ def nontrivial(pid, c):
     return True
 
 ENGINE_CONFIGS = [{"coerce_parent_concurrently": False}, {"coerce_list_concurrently": False}, {"parent_concurrently": False}, {"list_concurrently": False},
-                  {"coerce_parent_concurrently": False, "coerce_list_concurrently": False, "parent_concurrently": False, "list_concurrently": False}]
+                  {"coerce_parent_concurrently": False, "coerce_list_concurrently": False, "parent_concurrently": False, "list_concurrently": False},
+                  {"mixed": 1}, {"mixed": 2, "coerce_parent_concurrently": False}]
 
 PROFILES = {
     "C01": dict(adv=0.0, fail=0.0, inv=0.0, schemas=(25, 300), docs=(60, 150)),
@@ -259,6 +260,7 @@ async def explore(pid, tier, seed, m, v, known, budget_s, extra_cases=None):
             dg = DocGen(sg, rng, op_kinds=("query", "mutation") if sg.mutation else ("query",))
             dg.nested_vars = prof.get("nested_vars", False)
             dg.bad_var_defaults = prof.get("bad_var_defaults", 0.0)
+            dg.null_condition_vars = pid in ("C01", "C05")
             q, ops, opvars = dg.document(n_ops=rng.choice([1, 1, 1, 2]))
             k = rng.randrange(len(ops))
             variables, _ = dg.variables_for(opvars[k], invalid=prof["inv"])
